@@ -818,8 +818,12 @@ func (c *Context) Ln(d, x *Decimal) (Condition, error) {
 
 	// tmp1 = z - 1
 	ed.Sub(&tmp1, &z, decimalOne)
-	// tmp3 = 0.1
-	tmp3.SetFinite(1, -1)
+	// tmp3 = 0.5: the distance from 1 up to which the power series is used.
+	// Beyond it the argument is rescaled into [0.1, 1) and a multiple of ln(10)
+	// is added back, which cancels leading digits when the result is small;
+	// with a threshold of 0.1 that cost more than the two guard digits just
+	// above it (Ln(1.10099) at Precision 4 was off by more than one ulp).
+	tmp3.SetFinite(5, -1)
 
 	usePowerSeries := false
 
